@@ -13,6 +13,10 @@ CHECKS = {
          "Random histories over fee-bearing keysets (ppk 0,1,100,999,1000,2500, rotations, mixed-keyset inputs), adversarial requests (overflowing/zero/non-denomination outputs, outputs>inputs, over-quote mints, under-funded melts), exact-input melts of msat-precision invoices, MPP, internal settlement; SimLN charges the full fee limit. Oracles: per swap/mint/melt balance rules from the wire, fee limit <= fee reserve at every pay call, and the drain audit inequality redeemable + outflow <= inflow in msat.", "§9 C02"),
  "C03": ("exploration", "seeded schedule search over concurrent mint requests, polls, payment and the real invoice watcher; per-quote issuance bound",
          "Per quote: up to three concurrent mint requests with different outputs, pollers, the external payment and the asynchronous 'settled' notification (real checkInvoicePaid goroutine over a SimLN subscription), internal settlement and NUT-20 tampering (8 kinds), scheduled at storage/Lightning-call granularity. Oracle: value issued per quote <= amount x payments, nothing before payment, locked quotes only with a BIP-340 signature that the harness verifies itself.", "§9 C03"),
+ "C05": ("fault_enumeration", "enumeration of Lightning answer scripts x consumption channels; independent decision table",
+         "Enumerates the script space of the quantifier: pay answer (succeeded/pending/failed/transport error) x every sequence of status answers (not-found/error/failed/pending/succeeded; quick: <=2, thorough: <=3, i.e. scripts of length <=4) x the channel each answer is consumed through (melt's own extra check, quote poll, checkstate) x final outcome x MPP, plus seeded random scripts with background traffic. Oracle: state machine LOCKED/SPENT/RELEASED written from the statement; melt response, quote poll, checkstate and a follow-up swap must agree with it, the preimage must be the payment's, the next poll after the final outcome must adopt it.", "§9 C05"),
+ "C07": ("fault_enumeration", "enumeration of (operation x call position x {crash, storage error}) + restart + adversarial follow-up; seeded double-fault/background search",
+         "For each of 13 operations (mint quote, mint, locked mint, swap, melt x 5 Lightning outcomes, internal settlement, pending-melt resolution via poll and via checkstate, runtime rotation) a crash (all goroutines of the mint die at their seam, DB handle closed, LoadMint on the same directory) or an injected storage error at every position k=1..12 between its consecutive storage/Lightning calls; then restore/checkstate of everything acknowledged (D), retry/restore/poll of the interrupted operation (A), keyset comparison, Book invariants and drain audit (S). Thorough adds random prior histories and a concurrent background request. 15 genuine atomicity defects that need transactional redesign are listed in known_findings.json and reported as KNOWN-FINDING.", "§9 C07"),
 }
 
 NA = {
